@@ -676,6 +676,17 @@ class C17Assignment(Monitor):
 
     def after_step(self, h: History, before, after, events):
         yield from self.check_state(h, after, "after step", before)
+        # the built-in dispatcher must treat a recorded request as taken: whatever else controllers do, it never sends a
+        # vehicle to a request that records a dispatched vehicle in the state it was handed
+        for g in h.builtin_gens:
+            if g.name != "Dispatcher" or g.seen is None:
+                continue
+            for i in g.emitted:
+                r = g.seen.requests.get(getattr(i, "request_id", None))
+                if r is not None:
+                    h.stats["builtin_dispatches"] += 1
+                    if r.dispatched_vehicle is not None:
+                        yield Violation("C17", "built-in dispatcher sent a vehicle to a request that already records one", {"request": r.id, "recorded": r.dispatched_vehicle, "sent": i.vehicle_id, "recorded_at": int(r.dispatched_vehicle_time) if r.dispatched_vehicle_time is not None else None})
         pure_builtin = h.builtin and h.stats["instructions_queued"] == 0
         disp = collections.defaultdict(list)
         for v in after.vehicles.values():
@@ -709,8 +720,22 @@ class C17Assignment(Monitor):
 class C18Queue(Monitor):
     prop = "C18"
 
+    def start(self, h):
+        # the harness' own arrival log: vehicle -> (station, plug, time it joined), kept for as long as the vehicle is seen
+        # queueing for that plug at every step end. It does not trust the vehicles' own enqueue_time fields beyond the
+        # moment of joining: a vehicle that is re-stamped while it never left the queue keeps its place in this log.
+        self.joined: Dict[str, Tuple[str, str, int]] = {}
+
     def after_step(self, h: History, before, after, events):
         instructed = {e["vehicle_id"] for e in _events(events, "INSTRUCTION")}
+        # bring the log up to the state *before* this step (first step of a case, or vehicles that joined in the last step)
+        for v in before.vehicles.values():
+            if sname(v) == "ChargeQueueing":
+                k = (v.vehicle_state.station_id, v.vehicle_state.charger_id)
+                if self.joined.get(v.id, (None, None, None))[:2] != k:
+                    self.joined[v.id] = k + (int(v.vehicle_state.enqueue_time),)
+            else:
+                self.joined.pop(v.id, None)
         queues = collections.Counter()
         for v in after.vehicles.values():
             if sname(v) == "ChargeQueueing":
@@ -728,24 +753,29 @@ class C18Queue(Monitor):
                 continue  # the controller, not the queue, chose this vehicle
             h.flag("grant_from_queue")
             h.stats["queue_grants"] += 1
+            kv = (self.joined[v.id][2], v.id)
             for w in after.vehicles.values():
                 bw = before.vehicles[w.id]
                 if w.id == v.id or sname(bw) != "ChargeQueueing" or sname(w) != "ChargeQueueing":
                     continue
-                ws = bw.vehicle_state
-                if (ws.station_id, ws.charger_id) != (bs.station_id, bs.charger_id) or w.vehicle_state.instance_id != ws.instance_id:
+                ws, ws1 = bw.vehicle_state, w.vehicle_state
+                if (ws.station_id, ws.charger_id) != (bs.station_id, bs.charger_id) or (ws1.station_id, ws1.charger_id) != (bs.station_id, bs.charger_id):
                     continue
                 st_ = after.stations.get(ws.station_id)
                 cs = st_.state.get(ws.charger_id) if st_ is not None else None
                 mech = h.env.mechatronics[w.mechatronics_id]
                 if cs is None or not mech.valid_charger(cs.charger):
                     continue  # can never be granted this plug; skipping it is not queue-jumping
-                kw, kv = (int(ws.enqueue_time), w.id), (int(bs.enqueue_time), v.id)
+                kw = (self.joined[w.id][2], w.id)
                 if kw[0] == kv[0]:
                     h.flag("equal_time_tie")
+                if int(ws1.enqueue_time) != kw[0]:
+                    h.flag("restamped_while_queueing")
                 if kw < kv:
                     which = "earlier arrival" if kw[0] < kv[0] else "same arrival time, smaller id"
-                    yield Violation("C18", f"vehicle left waiting while a later one got the plug ({which})", {"granted": v.id, "granted_enqueued": kv[0], "waiting": w.id, "waiting_enqueued": kw[0], "station": bs.station_id, "plug": bs.charger_id})
+                    if int(ws1.enqueue_time) != kw[0]:
+                        which += "; the waiting vehicle was re-stamped although it never left the queue"
+                    yield Violation("C18", f"vehicle left waiting while a later one got the plug ({which})", {"granted": v.id, "granted_joined": kv[0], "waiting": w.id, "waiting_joined": kw[0], "waiting_current_stamp": int(ws1.enqueue_time), "station": bs.station_id, "plug": bs.charger_id})
 
 
 # ============================================================================ C09
@@ -916,31 +946,48 @@ class C16Immutable(Monitor):
     def after_probe(self, h, before, after, instruction, vid):
         return self._check_retained(h, "after a later instruction application")
 
-    def branch(self, h: History, k: int) -> Iterable[Violation]:
+    def _step_saved(self, h: History, saved, queues):
+        """StepSimulation.update on a saved state with the scripted controllers' queues set to `queues`; nothing of the
+        monitored history is disturbed (throw-away reporter, generator state restored)"""
         from nrel.hive.reporting.reporter import Reporter
-        from nrel.hive.state.simulation_state.update.step_simulation_ops import apply_instructions
-        from hv.canon import canon, first_diff
+        from hv.canon import canon
 
-        saved, _ = h.retained[k % len(h.retained)]
         env2 = h.env.set_reporter(Reporter())
         snap = [(g, list(getattr(g, "queue", [])), getattr(g, "emitted", ()), getattr(g, "seen", None)) for g in h.generators]
-        results = []
-        with quiet():
-            for _ in range(2):
-                for g, q, _, _ in snap:
-                    if hasattr(g, "queue"):
-                        g.queue = list(q)
-                r, _ = h.rp.u.step_update.update(saved, env2)
-                results.append(canon(r, ids=False))
-        for g, q, em, seen in snap:
-            if hasattr(g, "queue"):
+        try:
+            for g, q in zip(h.scripted, queues):
                 g.queue = list(q)
-            if hasattr(g, "emitted"):
-                g.emitted, g.seen = em, seen
+            with quiet():
+                r, _ = h.rp.u.step_update.update(saved, env2)
+            return canon(r, ids=False)
+        finally:
+            for g, q, em, seen in snap:
+                if hasattr(g, "queue"):
+                    g.queue = list(q)
+                if hasattr(g, "emitted"):
+                    g.emitted, g.seen = em, seen
+
+    def on_retain(self, h: History) -> None:
+        """called when a state is retained: remember what stepping it gives *now* (with the controllers' current queues)"""
+        queues = [list(g.queue) for g in h.scripted]
+        self.first_result = getattr(self, "first_result", [])
+        self.first_result.append((queues, self._step_saved(h, h.sim, queues)))
+
+    def branch(self, h: History, k: int) -> Iterable[Violation]:
+        from hv.canon import first_diff
+
+        k = k % len(h.retained)
+        saved, _ = h.retained[k]
+        queues, first = self.first_result[k]
+        again = [self._step_saved(h, saved, queues) for _ in range(2)]
         h.flag("branched")
         h.stats["branches"] += 1
-        if results[0] != results[1]:
-            yield Violation("C16", "stepping the same saved state twice gave different results", {"first_difference": first_diff(results[0], results[1])})
+        if int(h.sim.sim_time) > int(saved.sim_time):
+            h.flag("branched_after_later_steps")
+        if again[0] != again[1]:
+            yield Violation("C16", "stepping the same saved state twice gave different results", {"first_difference": first_diff(again[0], again[1])})
+        elif again[0] != first:
+            yield Violation("C16", "stepping a saved state gives another result after the simulation has moved on", {"first_difference": first_diff(first, again[0]), "saved_at": int(saved.sim_time), "now": int(h.sim.sim_time)})
         yield from self._check_retained(h, "after stepping a saved state")
 
     def finish(self, h):
